@@ -45,6 +45,9 @@ def work_one(job):
     prop, tdesc, opts = job
     t0 = time.time()
     res = dict(stats={}, confirmed=[], unconfirmed=[], undecided=[], errors=[], witness=0, witness_mismatch=[], tdesc=tdesc)
+    if time.time() > float(os.environ.get("VERIF_RUN_DEADLINE", "inf")):
+        res.update(skipped=True, wall=0.0, z3=(0, 0.0))
+        return res
     try:
         mod = importlib.import_module("props." + prop.lower())
         tpl = mod.build(tdesc, wrong=opts.get("wrong", False))
@@ -173,6 +176,10 @@ def run_property(prop, tier, seed, workers=None, extra_evidence=None, kani_part=
             print(f"[{prop}] running the supporting Kani kernel harnesses ({', '.join(kani_engine.KERNELS[prop])})", file=sys.stderr, flush=True)
             kani_part, kani_bad = kani_engine.kernels_for(prop)
     tds = mod.templates(tier, seed)
+    # run-level wall cap: a change that makes most queries undecidable within the per-query cap must end in a verdict
+    # (violation, or INCONCLUSIVE) within bounded time, never in an open-ended run; templates not reached are counted
+    run_cap = float(os.environ.get("VERIF_RUN_CAP_S", "1500" if tier == "quick" else "21600"))
+    os.environ["VERIF_RUN_DEADLINE"] = str(t0 + run_cap)
     jobs = [(prop, td, {}) for td in tds]
     # sensitivity twins: deliberately wrong oracles that must be refuted
     twin_tds = mod.twins(tier, seed) if hasattr(mod, "twins") else []
@@ -200,6 +207,8 @@ def run_property(prop, tier, seed, workers=None, extra_evidence=None, kani_part=
     fam = {}
     zn, zt = 0, 0.0
     # results of imap_unordered lost the job association; work_one reports tdesc, twins are recognised via a marker
+    skipped = sum(1 for r in results if r.get("skipped"))
+    results = [r for r in results if not r.get("skipped")]
     for r in results:
         is_twin = r.get("tdesc") is not None and isinstance(r["tdesc"], dict) and r["tdesc"].get("_twin")
         zn += r["z3"][0]
@@ -267,6 +276,10 @@ def run_property(prop, tier, seed, workers=None, extra_evidence=None, kani_part=
             exit_code = 1
     if kani_part and any(v["status"] in ("inconclusive", "unconfirmed") for v in kani_part["harnesses"].values()):
         print(f"NOTE property={prop}: Kani kernel harness(es) without a verdict: " + ", ".join(k for k, v in kani_part["harnesses"].items() if v["status"] in ("inconclusive", "unconfirmed")), flush=True)
+    if skipped:
+        print(f"INCONCLUSIVE property={prop}: the run time cap ({run_cap:.0f} s) was reached; {skipped} of {len(jobs)} templates were not explored (nothing is claimed about them)", flush=True)
+        if exit_code == 0:
+            exit_code = 2
     if twin_total and twin_refuted < twin_total:
         print(f"INCONCLUSIVE property={prop}: {twin_total - twin_refuted} of {twin_total} deliberately wrong oracle twins were not refuted (machinery error)", flush=True)
         if exit_code == 0:
@@ -290,7 +303,7 @@ def run_property(prop, tier, seed, workers=None, extra_evidence=None, kani_part=
     if undecided:
         print(f"NOTE property={prop}: {len(undecided)} obligation(s) undecided by the solver within the time cap (counted as not discharged), first: {undecided[0]}", flush=True)
     cov = dict(stats=agg, families=fam, witness=witness, confirmed=len(confirmed), new_violations=len(new_viol), known_hits={k: len(v[1]) for k, v in known_hits.items()},
-               unconfirmed=len(unconfirmed), undecided=len(undecided), twins=(twin_refuted, twin_total), z3=(zn, round(zt, 2)), selftest=st, build=meta.get("hash"),
+               unconfirmed=len(unconfirmed), undecided=len(undecided), skipped_templates=skipped, run_cap_s=run_cap, twins=(twin_refuted, twin_total), z3=(zn, round(zt, 2)), selftest=st, build=meta.get("hash"),
                templates=len(tds), viol_samples=[dict(tpl=c["tpl"], obl=c["obl"], vals=c["vals"], doc=c["docs"][0][:300]) for c in new_viol[:3]])
     if extra_evidence:
         cov.update(extra_evidence)
